@@ -11,6 +11,7 @@ SPECIFICATION Spec
 INVARIANT GTypeOK
 INVARIANT ImplRefines
 INVARIANT LastWins
+INVARIANT StmtFoldIsRefMap
 INVARIANT ValidIffSig
 INVARIANT NonStatusIgnored
 CHECK_DEADLOCK FALSE
